@@ -142,14 +142,17 @@ class Currency:
                 f"expected a string argument, found {currency_code}", token=None
             )
 
-        return numbers.format_currency(
-            _parse_decimal(left, input_locale),
-            currency_code,
-            format=_format,
-            locale=locale,
-            group_separator=group_separator,
-            currency_digits=self.currency_digits,
-        )
+        try:
+            return numbers.format_currency(
+                _parse_decimal(left, input_locale),
+                currency_code,
+                format=_format,
+                locale=locale,
+                group_separator=group_separator,
+                currency_digits=self.currency_digits,
+            )
+        except (ArithmeticError, ValueError) as err:
+            raise LiquidValueError(f"can't format number: {err}", token=None) from err
 
 
 def _parse_decimal(val: object, locale: Union[str, Locale]) -> Decimal:
@@ -258,12 +261,16 @@ class DateTime:
             default=self.default_input_timezone,
         )
 
-        return dates.format_datetime(
-            _parse_datetime(left, input_tzinfo),
-            format=_format,
-            locale=locale,
-            tzinfo=tzinfo,
-        )
+        try:
+            return dates.format_datetime(
+                _parse_datetime(left, input_tzinfo),
+                format=_format,
+                locale=locale,
+                tzinfo=tzinfo,
+            )
+        except (ArithmeticError, ValueError, OSError) as err:
+            # Timestamps out of range for the platform, NaN.
+            raise LiquidValueError(f"can't format date: {err}", token=None) from err
 
     def _resolve_timezone(
         self,
@@ -320,7 +327,7 @@ def _parse_datetime(
             if _dt.tzinfo is None:
                 return _dt.replace(tzinfo=default_timezone)
             return _dt
-        except parser.ParserError as err:
+        except (parser.ParserError, OverflowError) as err:
             raise LiquidValueError(str(err), token=None) from err
 
     if not isinstance(val, (date, time, datetime, int, float)):
@@ -415,13 +422,16 @@ class Number:
                 f"expected a string argument, found {_format}", token=None
             )
 
-        return numbers.format_decimal(  # type: ignore
-            _parse_decimal(left, input_locale),
-            format=_format,
-            locale=locale,
-            group_separator=group_separator,
-            decimal_quantization=decimal_quantization,
-        )
+        try:
+            return numbers.format_decimal(  # type: ignore
+                _parse_decimal(left, input_locale),
+                format=_format,
+                locale=locale,
+                group_separator=group_separator,
+                decimal_quantization=decimal_quantization,
+            )
+        except (ArithmeticError, ValueError) as err:
+            raise LiquidValueError(f"can't format number: {err}", token=None) from err
 
 
 def unit_filter(_filter: FilterT) -> FilterT:
@@ -435,6 +445,9 @@ def unit_filter(_filter: FilterT) -> FilterT:
             raise LiquidTypeError(err, token=None) from err
         except units.UnknownUnitError as err:
             raise LiquidValueError(err, token=None) from err
+        except (ArithmeticError, ValueError) as err:
+            # Infinity, NaN and numbers beyond the decimal context's range.
+            raise LiquidValueError(f"can't format number: {err}", token=None) from err
 
     return wrapper
 
